@@ -395,7 +395,10 @@ fn cmd_replay_beh(a: &Args) {
 					"c08" => ctx.c08_insertions(&o, &mut viols),
 					"c17ins" => {
 						ctx.c17_insertions(&o, &mut viols);
-						ctx.c17_sizes(&o, &mut viols)
+						ctx.c17_sizes(&o, &mut viols);
+						if idx % 3 == 0 {
+							ctx.c17_metadata_types(&o, &mut viols)
+						}
 					}
 					"debug" => {
 						let dir = std::path::PathBuf::from(format!("{}/dump-{}-{}-{}", sink.replay_dir, std::process::id(), idx, vi));
